@@ -174,8 +174,8 @@ def run(ctx):
         chosen = ctors[(ctx.seed % step)::step][:12]
     for t in chosen:
         fit = [sh for sh in shapes['q'] if t['nreq'] <= len(sh['args']) <= len(t['params'])]
-        if thorough and len(fit) > 1400:
-            fit = [sh for sh in fit if len(sh['args']) < 3] + rnd.sample([sh for sh in fit if len(sh['args']) == 3], 1200)
+        if thorough and len(fit) > 1000:
+            fit = [sh for sh in fit if len(sh['args']) < 3] + rnd.sample([sh for sh in fit if len(sh['args']) == 3], 800)
         for i, sh in enumerate(fit):
             add(t, sh, 'cl' if i % 3 == 2 else 'list')
     # operators on ChannelList: receiver = first argument (a list), no opaque tuples as operands
